@@ -101,6 +101,9 @@ def _cfg_fire(tier):
                 else:
                     out.append({'carrier': c, 'step_ft': step, 'wind': wind, 'rlo': rlo, 'rhi': rhi,
                                 'mode': mode, 'unit': ['Foot', 'Meter', 'Yard', 'bare'][i % 4]})
+    # canted rifles (the muzzle row is displaced by the canted sight height): both signs
+    for cd in ((-25.0, 200.0) if tier == 'quick' else (-25.0, 200.0, 40.0, -170.0)):
+        out.append({'carrier': 'A', 'step_ft': 100.0, 'wind': 'none', 'rlo': 101.0, 'rhi': 250.0, 'mode': 'step', 'unit': 'Foot', 'slo': 100.0, 'shi': 250.0, 'cant_deg': cd})
     # default step (range / 10 must be >= the integration step, as the statement requires): finer carriers, K = 22..26 steps
     for (c, step, wind) in ([('A', 20.0, 'none'), ('B', 12.0, 'left')] if tier == 'quick' else
                             [('A', 20.0, 'none'), ('A', 20.0, 'two'), ('B', 12.0, 'left'), ('C', 20.0, 'tail'), ('A', 2.0, 'none')]):
@@ -119,10 +122,12 @@ def _cfg_fire(tier):
                 'S in [max step, Rmax] as quantity in ft / m / yd or bare float; every cell of the (R, S) plane; also default step and time step',
          assumptions=['floats as reals for the symbolic record arithmetic (row distance = k*S exactly over the reals; the physics runs in true doubles)'],
          outside=['shots other than the carriers (covered by C03.filter inductively)', 'record steps smaller than the integration step'])
-def c03_fire(ctx, carrier, step_ft, wind, rlo, rhi, mode, unit, slo=None, shi=None):
+def c03_fire(ctx, carrier, step_ft, wind, rlo, rhi, mode, unit, slo=None, shi=None, cant_deg=0.0):
     p = pybc()
     U = p.Unit
     extra = {'relative_deg': 30.0} if carrier == 'C' else ({'relative_deg': 50.0} if carrier == 'D' else {})     # D: slow lofted shot (the path flattens quickly)
+    if cant_deg:
+        extra = dict(extra, cant_deg=cant_deg)
     calc, shot = carriers.make(carrier, step_ft, wind, **extra)
     if mode == 'time':
         # only the time step is symbolic here (range and record step concrete): cells of the tau axis
@@ -159,8 +164,11 @@ def c03_fire(ctx, carrier, step_ft, wind, rlo, rhi, mode, unit, slo=None, shi=No
     # muzzle row
     r0 = rows[0]
     sh = shot.weapon.sight_height >> U.Foot
-    ctx.check('muzzle_row', r0.time == 0 and (r0.distance >> U.Foot) == 0 and abs((r0.height >> U.Foot) + sh) <= 1e-12
-              and abs((r0.velocity >> U.FPS) - (shot.ammo.mv >> U.FPS)) <= 1e-9)
+    import math
+    cant = math.radians(cant_deg)
+    ctx.check('muzzle_row', r0.time == 0 and (r0.distance >> U.Foot) == 0 and abs((r0.height >> U.Foot) + math.cos(cant) * sh) <= 1e-12
+              and abs((r0.windage >> U.Foot) + math.sin(cant) * sh) <= 1e-12
+              and abs((r0.velocity >> U.FPS) - (shot.ammo.mv >> U.FPS)) <= 1e-9, info={'cant_deg': cant_deg})
     if mode != 'time':
         # rows sit at multiples 0..c-1; every multiple <= R is present; at most one multiple beyond R, within one integration advance
         for k in range(c):
